@@ -7,6 +7,13 @@
         → ok phase=… up=<hex> down=<hex> eofU= eofD= finU= finD= closedC= closedT= expired= dropped=
              early=<hex> availU= availD= accept=
           stuck <index>        the step at <index> is not enabled (a harness error, not a verdict)
+    trun <cfg> <period>,<slack> <steps>      execute a TIMED schedule on the tunnel machine with a clock
+        steps = as above, plus tk:<n> (n units of time pass); `ge` is enabled only from
+                first finish + period on, `tk` not beyond first finish + period + slack while pending
+        → the `ok …` line of `run` followed by now= armedAt=<n|-> expiredAt=<n|->
+          stuck <index>        the step at <index> is not a step of the timed machine here (this IS
+                               the verdict of the timed verbs: the harness builds the schedule from
+                               what it observed)
     holds <up> <down> <closedC> <closedT>
         up/down = sent,got,pfx(0|1),fin(0|1),eof(0|1)   what the endpoints observed
         → true | false <first clause of `accept` that fails>
@@ -51,6 +58,29 @@ def runIdx (c : Cfg) : State → List Step → Nat → Except Nat State
     | none => .error i
     | some s' => runIdx c s' rest (i + 1)
 
+def decodeTStep (s : String) : Option TStep :=
+  match s.splitOn ":" with
+  | ["tk", n] => (natOf n).map .tick
+  | _ => (decodeStep s).map .act
+
+def decodeTSteps (s : String) : Option (List TStep) := (splitList2 s).mapM decodeTStep
+
+def decodeTiming (s : String) : Option Timing :=
+  match (splitList s).mapM natOf with
+  | some [p, k] => some { period := p, slack := k }
+  | _ => none
+
+def trunIdx (c : Cfg) (τ : Timing) : TState → List TStep → Nat → Except Nat TState
+  | t, [], _ => .ok t
+  | t, st :: rest, i =>
+    match tstep c τ t st with
+    | none => .error i
+    | some t' => trunIdx c τ t' rest (i + 1)
+
+def showOptNat : Option Nat → String
+  | some n => toString n
+  | none => "-"
+
 def phaseName : Phase → String
   | .reading => "reading" | .dialing => "dialing" | .replied => "replied"
   | .tunnel => "tunnel" | .closed => "closed"
@@ -81,6 +111,14 @@ def handle : List String → String
       | .ok s => showState c s
       | .error i => s!"stuck {i}"
     | _, _ => "bad-op"
+  | ["trun", cfg, timing, steps] =>
+    match decodeCfg cfg, decodeTiming timing, decodeTSteps steps with
+    | some c, some τ, some sts =>
+      match trunIdx c τ tinit sts 0 with
+      | .ok t =>
+        showState c t.s ++ s!" now={t.now} armedAt={showOptNat t.armedAt} expiredAt={showOptNat t.expiredAt}"
+      | .error i => s!"stuck {i}"
+    | _, _, _ => "bad-op"
   | ["holds", up, down, cc, ct] =>
     match decodeDirObs up, decodeDirObs down, boolOf cc, boolOf ct with
     | some u, some d, some cc, some ct =>
